@@ -90,6 +90,13 @@ func replay(f lib.Flags) int {
 			m.Violate("C07/modepb/UpdateModeValues/writes-old-values", "UpdateModeValues changed the live old ModeValues message (or panicked)", c, c.Stored, ans)
 		}
 		fmt.Printf("replay mode %v -> %s\n", c, ans)
+	case "events-value":
+		var es evSeq
+		if err := json.Unmarshal(b, &es); err != nil {
+			lib.Fatal(err)
+		}
+		runValueEventSeq(es, m)
+		fmt.Printf("replay core-events (Value) seq=%d seed=%d steps=%d\n", es.Seq, es.Seed, es.Steps)
 	case "plant":
 		var c plantCase
 		if err := json.Unmarshal(b, &c); err != nil {
